@@ -59,6 +59,19 @@ class SeqBuilder:
             return None
         return self.env.get(name)
 
+    def returned(self):
+        """segments of what the function returns (every `return <list>` must be understood; None otherwise)"""
+        self.env = {}
+        try:
+            self._block(self.fn.body, cond=False)
+            outs = []
+            for n in ast.walk(self.fn):
+                if isinstance(n, ast.Return) and n.value is not None:
+                    outs.append(self._value(n.value))
+        except Unknown:
+            return None
+        return outs
+
     # -------------------------------------------------------------- expressions -> segments
     def _value(self, e: ast.AST):
         if isinstance(e, (ast.List, ast.Tuple)):
@@ -142,6 +155,45 @@ class SeqBuilder:
         if isinstance(s, ast.If):
             self._block(s.body, True)
             self._block(s.orelse, True)
+            return
+        if isinstance(s, ast.While):
+            # the drain loop: `pending = list(xs); while pending: x = pending.pop() …` visits xs from its end (pop(0) /
+            # popleft(): from its start)
+            t = s.test
+            if isinstance(t, ast.Compare) and len(t.ops) == 1 and isinstance(t.left, ast.Call) and isinstance(t.left.func, ast.Name) and t.left.func.id == "len":
+                t = t.left
+            if isinstance(t, ast.Call) and isinstance(t.func, ast.Name) and t.func.id == "len" and len(t.args) == 1:
+                t = t.args[0]
+            pops = [c for c in ast.walk(ast.Module(body=s.body, type_ignores=[])) if isinstance(c, ast.Call) and isinstance(c.func, ast.Attribute)
+                    and c.func.attr in ("pop", "popleft") and isinstance(c.func.value, ast.Name) and isinstance(t, ast.Name) and c.func.value.id == t.id]
+            touches = any(isinstance(c, ast.Call) and isinstance(c.func, ast.Attribute) and isinstance(c.func.value, ast.Name)
+                          and c.func.value.id in self.env and c.func.attr in ("append", "extend", "insert")
+                          and not (isinstance(t, ast.Name) and c.func.value.id == t.id)
+                          for c in ast.walk(ast.Module(body=s.body, type_ignores=[])))
+            if not touches:
+                return
+            if len(pops) != 1 or any(isinstance(c, ast.Call) and isinstance(c.func, ast.Attribute) and isinstance(c.func.value, ast.Name)
+                                     and c.func.value.id == t.id and c.func.attr in ("append", "extend", "insert")
+                                     for c in ast.walk(ast.Module(body=s.body, type_ignores=[]))):
+                raise Unknown()
+            pc = pops[0]
+            from_end = pc.func.attr == "pop" and (not pc.args or (isinstance(pc.args[0], ast.UnaryOp) and isinstance(pc.args[0].op, ast.USub)))
+            if pc.func.attr == "pop" and pc.args and not from_end and not (isinstance(pc.args[0], ast.Constant) and pc.args[0].value == 0):
+                raise Unknown()
+            src = self.env.get(t.id)
+            it, rev = t, from_end
+            if src is not None and len(src) == 1 and src[0][0] == "each" and src[0][3] is None:
+                it, rev = src[0][1], src[0][2] ^ from_end  # `pending = list(xs)`: the drain visits xs
+            for n in ast.walk(ast.Module(body=s.body, type_ignores=[])):
+                if isinstance(n, ast.Call) and isinstance(n.func, ast.Attribute) and isinstance(n.func.value, ast.Name) and n.func.value.id in self.env \
+                        and n.func.value.id != t.id:
+                    name, meth = n.func.value.id, n.func.attr
+                    if meth == "append" and len(n.args) == 1:
+                        self.env[name] = self.env[name] + [("each", it, rev, n.args[0], s)]
+                    elif meth == "insert" and len(n.args) == 2 and isinstance(n.args[0], ast.Constant) and n.args[0].value == 0:
+                        self.env[name] = [("each", it, not rev, n.args[1])] + self.env[name]
+                    elif meth in ("extend", "clear", "pop", "remove", "reverse", "sort", "insert"):
+                        raise Unknown()
             return
         if isinstance(s, ast.For):
             it, rev = _rev(s.iter)
